@@ -315,4 +315,212 @@ theorem dpkgDefsToVulns_eq (root : OvalRoot) (proto : ProtoFn) :
       dpkgDefsToVulns_eq root proto ds (fun d' hd' => h d' (List.mem_cons_of_mem _ hd'))]
     simp
 
+/-! ### OSV: intervals and the event machine -/
+
+/-- How an interval ends. -/
+inductive Closing where
+  | fixed (v : String) (p : SemverParse)
+  | lastAffected (v : String) (p : SemverParse)
+deriving Repr, DecidableEq
+
+/-- One `introduced … (fixed | last_affected)?` interval of an OSV range. -/
+structure Interval where
+  intro : String
+  introV : SemverParse
+  close : Option Closing
+deriving Repr, DecidableEq
+
+def Closing.event : Closing → OsvEvent
+  | .fixed v p => { fixed := v, fixedV := p }
+  | .lastAffected v p => { lastAffected := v, lastAffectedV := p }
+
+def Closing.version : Closing → String
+  | .fixed v _ => v
+  | .lastAffected v _ => v
+
+def introEvent (iv : Interval) : OsvEvent := { introduced := iv.intro, introducedV := iv.introV }
+
+/-- The events of an interval, as the OSV schema writes them: one field per event object. -/
+def Interval.events (iv : Interval) : List OsvEvent :=
+  introEvent iv :: (match iv.close with | none => [] | some c => [c.event])
+
+def eventsOf (ivs : List Interval) : List OsvEvent := ivs.flatMap Interval.events
+
+/-- Version strings are non-empty and only the last interval may be open. -/
+def WellShaped : List Interval → Prop
+  | [] => True
+  | iv :: rest => iv.intro ≠ "" ∧ (∀ c, iv.close = some c → c.version ≠ "") ∧ (iv.close = none → rest = []) ∧ WellShaped rest
+
+/-- SEMVER: the cell after the `introduced` event of an interval. -/
+def semverIntro (iv : Interval) : Cell :=
+  let c : Cell := {}
+  if iv.intro = "0" then { c with lower := { c.lower with kind := "semver" } }
+  else match iv.introV with
+    | some p => { c with lower := fromSemver p }
+    | none => c
+
+/-- SEMVER: the effect of the closing event. -/
+def semverClose (hasVersions : Bool) (c : Cell) : Closing → Cell
+  | .fixed v p => (match p with | some q => { c with upper := fromSemver q, fixed := v } | none => c)
+  | .lastAffected _ p => if hasVersions then c else (match p with | some q => { c with upper := incPatch q } | none => c)
+
+/-- The cell `Insert` should build for an interval of a SEMVER range. -/
+def semverCell (hasVersions : Bool) (iv : Interval) : Cell :=
+  match iv.close with
+  | none => semverIntro iv
+  | some cl => semverClose hasVersions (semverIntro iv) cl
+
+/-- States between intervals: either nothing happened yet, or the previous interval was closed and recorded once. -/
+def Between (s : EvState) : Prop :=
+  (s.seen = true ∧ s.curCount = 1) ∨ (s.seen = false ∧ s.curCount = 0 ∧ s.cur = {})
+
+theorem stepSemver_intro (hv last : Bool) (s : EvState) (iv : Interval) (hs : Between s) (hi : iv.intro ≠ "") :
+    stepSemver hv last s (introEvent iv) =
+      { closed := s.closed ++ List.replicate s.curCount s.cur, cur := semverIntro iv,
+        curCount := if last then 1 else 0, seen := true } := by
+  rcases hs with ⟨h1, h2⟩ | ⟨h1, h2, h3⟩
+  · cases last <;>
+      simp [stepSemver, introEvent, hi, h1, h2, EvState.fresh, EvState.append, semverIntro] <;> rfl
+  · cases last <;>
+      simp [stepSemver, introEvent, hi, h1, h2, h3, EvState.append, semverIntro] <;> rfl
+
+theorem stepSemver_close (hv last : Bool) (s : EvState) (cl : Closing) (h0 : s.curCount = 0) (hv' : cl.version ≠ "") :
+    stepSemver hv last s cl.event = { s with cur := semverClose hv s.cur cl, curCount := 1 } := by
+  cases cl with
+  | fixed v p =>
+    simp only [Closing.version] at hv'
+    cases p <;> simp [stepSemver, Closing.event, hv', EvState.appendOnce, h0, semverClose]
+  | lastAffected v p =>
+    simp only [Closing.version] at hv'
+    cases hv <;> cases p <;> simp [stepSemver, Closing.event, hv', EvState.appendOnce, h0, semverClose]
+
+theorem semver_intervals_aux (hv : Bool) :
+    ∀ (ivs : List Interval) (s : EvState), Between s → WellShaped ivs →
+      (runEvents .semver hv s (eventsOf ivs)).vers = s.closed ++ List.replicate s.curCount s.cur ++ ivs.map (semverCell hv)
+  | [], s, _, _ => by simp [eventsOf, runEvents, EvState.vers]
+  | iv :: rest, s, hs, hw => by
+    obtain ⟨hi, hc, hopen, hrest⟩ := hw
+    cases hcl : iv.close with
+    | none =>
+      have : rest = [] := hopen hcl
+      subst this
+      simp [eventsOf, Interval.events, hcl, runEvents, stepSemver_intro hv true s iv hs hi, EvState.vers, semverCell]
+    | some cl =>
+      have hcv := hc cl hcl
+      have e : eventsOf (iv :: rest) = introEvent iv :: cl.event :: eventsOf rest := by
+        simp [eventsOf, Interval.events, hcl]
+      rw [e]
+      simp only [runEvents, List.isEmpty_cons]
+      rw [stepSemver_intro hv false s iv hs hi]
+      rw [stepSemver_close hv _ _ cl (by simp) hcv]
+      rw [semver_intervals_aux hv rest _ (Or.inl ⟨rfl, rfl⟩) hrest]
+      simp [semverCell, hcl]
+
+
+/-- Maven / PyPI / RubyGems: the `url.Values` after the `introduced` event. -/
+def encIntro (iv : Interval) : Cell :=
+  { hasRange := false, eco := if iv.intro = "0" then [] else [("introduced", iv.intro)] }
+
+def encClose (c : Cell) : Closing → Cell
+  | .fixed v _ => { c with eco := c.eco ++ [("fixed", v)] }
+  | .lastAffected v _ => { c with eco := c.eco ++ [("lastAffected", v)] }
+
+def encCell (iv : Interval) : Cell :=
+  match iv.close with
+  | none => encIntro iv
+  | some cl => encClose (encIntro iv) cl
+
+theorem stepEncoded_intro (last : Bool) (s : EvState) (iv : Interval) (hs : Between s) (hi : iv.intro ≠ "") :
+    stepEncoded last s (introEvent iv) =
+      { closed := s.closed ++ List.replicate s.curCount { s.cur with hasRange := false }, cur := encIntro iv,
+        curCount := if last then 1 else 0, seen := true } := by
+  rcases hs with ⟨h1, h2⟩ | ⟨h1, h2, h3⟩
+  · cases last <;> by_cases h0 : iv.intro = "0" <;>
+      simp [stepEncoded, introEvent, hi, h0, h1, h2, EvState.fresh, EvState.append, encIntro]
+  · cases last <;> by_cases h0 : iv.intro = "0" <;>
+      simp [stepEncoded, introEvent, hi, h0, h1, h2, h3, EvState.append, encIntro]
+
+theorem stepEncoded_close (last : Bool) (s : EvState) (cl : Closing) (h0 : s.curCount = 0) (hr : s.cur.hasRange = false)
+    (hv' : cl.version ≠ "") :
+    stepEncoded last s cl.event = { s with cur := encClose s.cur cl, curCount := 1 } := by
+  cases cl with
+  | fixed v p =>
+    simp only [Closing.version] at hv'
+    simp [stepEncoded, Closing.event, hv', EvState.appendOnce, h0, encClose, hr]
+  | lastAffected v p =>
+    simp only [Closing.version] at hv'
+    simp [stepEncoded, Closing.event, hv', EvState.appendOnce, h0, encClose, hr]
+
+/-- Between intervals of an encoded range every recorded cell already has no semver range. -/
+def BetweenEnc (s : EvState) : Prop :=
+  (s.seen = true ∧ s.curCount = 1 ∧ s.cur.hasRange = false) ∨ (s.seen = false ∧ s.curCount = 0 ∧ s.cur = {})
+
+theorem BetweenEnc.between {s : EvState} (h : BetweenEnc s) : Between s := by
+  rcases h with ⟨a, b, _⟩ | h
+  · exact Or.inl ⟨a, b⟩
+  · exact Or.inr h
+
+theorem enc_intervals_aux :
+    ∀ (ivs : List Interval) (s : EvState), BetweenEnc s → WellShaped ivs →
+      (runEvents .encoded false s (eventsOf ivs)).vers = s.closed ++ List.replicate s.curCount s.cur ++ ivs.map encCell
+  | [], s, _, _ => by simp [eventsOf, runEvents, EvState.vers]
+  | iv :: rest, s, hs, hw => by
+    obtain ⟨hi, hc, hopen, hrest⟩ := hw
+    have hrep : List.replicate s.curCount { s.cur with hasRange := false } = List.replicate s.curCount s.cur := by
+      rcases hs with ⟨_, _, h3⟩ | ⟨_, h2, _⟩
+      · congr 1; cases hc' : s.cur; simp [hc'] at h3; simp [h3]
+      · simp [h2]
+    cases hcl : iv.close with
+    | none =>
+      have : rest = [] := hopen hcl
+      subst this
+      simp [eventsOf, Interval.events, hcl, runEvents, stepEncoded_intro true s iv hs.between hi, EvState.vers, encCell, hrep]
+    | some cl =>
+      have hcv := hc cl hcl
+      have e : eventsOf (iv :: rest) = introEvent iv :: cl.event :: eventsOf rest := by
+        simp [eventsOf, Interval.events, hcl]
+      rw [e]
+      simp only [runEvents, List.isEmpty_cons]
+      rw [stepEncoded_intro false s iv hs.between hi]
+      rw [stepEncoded_close _ _ cl (by simp) (by simp [encIntro]) hcv]
+      rw [enc_intervals_aux rest _ (Or.inl ⟨rfl, rfl, by cases cl <;> simp [encClose, encIntro]⟩) hrest]
+      simp [encCell, hcl, hrep]
+
+
+/-! ### OSV: the whole range, other ecosystems, vulnerabilities -/
+
+theorem between_init : Between ({} : EvState) := Or.inr ⟨rfl, rfl, rfl⟩
+theorem betweenEnc_init : BetweenEnc ({} : EvState) := Or.inr ⟨rfl, rfl, rfl⟩
+
+/-- ECOSYSTEM ranges of ecosystems without encoder: there is one cell, recorded at most once. -/
+theorem other_vers_length (hv : Bool) :
+    ∀ (evs : List OsvEvent) (s : EvState), s.closed = [] → s.curCount ≤ 1 →
+      (runEvents .other hv s evs).vers.length ≤ 1
+  | [], s, h1, h2 => by simp [runEvents, EvState.vers, h1]; exact h2
+  | ev :: rest, s, h1, h2 => by
+    simp only [runEvents]
+    apply other_vers_length hv rest
+    · simp [stepOther, EvState.appendOnce]; split <;> simp [h1]
+    · simp [stepOther, EvState.appendOnce]; split <;> simp <;> omega
+
+/-- What the OSV schema states for an interval of a SEMVER range (a
+    `last_affected` bound is always meaningful). -/
+def specCell (iv : Interval) : Cell := semverCell false iv
+
+/-- No interval ends with `last_affected`. -/
+def NoLastAffected (ivs : List Interval) : Prop :=
+  ∀ iv ∈ ivs, ∀ v p, iv.close ≠ some (.lastAffected v p)
+
+theorem semverCell_eq_spec (hv : Bool) (iv : Interval) (h : hv = false ∨ ∀ v p, iv.close ≠ some (.lastAffected v p)) :
+    semverCell hv iv = specCell iv := by
+  rcases h with rfl | h
+  · rfl
+  · unfold specCell semverCell
+    cases hc : iv.close with
+    | none => rfl
+    | some cl =>
+      cases cl with
+      | fixed v p => rfl
+      | lastAffected v p => exact absurd hc (h v p)
+
 end ClairModel.Feeds
